@@ -171,7 +171,7 @@ def run(tier, seed, replay):
             consts=sess_consts(k, "client", True, MaxPid=2, MaxPack=3, MaxAdv=3, Deltas="{179,180}"), workers=2, timeout=3000, heap="4g")
     else:
         add("server-design", "design", module="MCUdpSession", cfg="MCUdpSession.cfg",
-            consts=sess_consts(k, "server", CSess='{"c1","c2"}', MaxPid=2, MaxPack=4, MaxAdv=3, Skews="{0,30}", Deltas=dl_srv),
+            consts=sess_consts(k, "server", CSess='{"c1","c2"}', MaxPid=3, MaxPack=3, MaxAdv=3, Skews="{0,30}", Deltas=dl_srv),
             workers=4, timeout=14000, heap="8g")
         add("server-design-w3", "design", module="MCUdpSession", cfg="MCUdpSession.cfg",
             consts=sess_consts(k, "server", W=3, MaxPid=5, MaxPack=5, MaxAdv=2, Skews="{0}", Deltas="{93,%d}" % (3 * k["Nat"])),
